@@ -177,6 +177,8 @@ func draw(rt *rapid.T) Scenario {
 			r.Record = fmt.Sprintf("m%d", rapid.IntRange(0, nm-1).Draw(rt, "recname"))
 		case 1:
 			r.Record = fmt.Sprintf("job:rec%d", i)
+		case 2: // an alert that merely shares its name with a metric produces nothing
+			r.Alert = fmt.Sprintf("m%d", rapid.IntRange(0, nm-1).Draw(rt, "alertname"))
 		default:
 			r.Alert = fmt.Sprintf("Alert%d", i)
 		}
